@@ -28,6 +28,7 @@ def run(ctx, rep):
     domain_probes(F, rep)
     float_part_probes(F, rep)
     positions_not_text(F, rep)
+    integer_powers_use_the_declared_width(F, rep)
     # `+` concatenation and `*` repetition are computed by the interpreter's operator implementations (text of a number = its value's, not its spelling's):
     # the folder hands back nothing but Numbers out of the compared operator tables
     from props import C06 as _c06
@@ -40,6 +41,22 @@ def run(ctx, rep):
 SEARCHES = ("::replace", "::replacen", "::find", "::rfind", "::matches", "::match_indices", "::split", "::splitn", "::rsplit", "::split_once",
             "::rsplit_once", "::strip_prefix", "::strip_suffix", "::trim_matches", "::trim_start_matches", "::trim_end_matches", "::contains",
             "::starts_with", "::ends_with")
+
+
+def integer_powers_use_the_declared_width(F, rep, rule="C14.width"):
+    """`pow` of an integer receiver is declared bigint: every result that fits i128 is in the domain.  The arm computes it with the checked power of
+    i128; a checked power of a narrower integer (i64 "the machine word") refuses in-domain results (`10.pow(20)`)."""
+    run = [g for g in F.crates["bytecode"].fns if g.path.endswith("BuiltInFunction::run") and g.kind != "Closure"]
+    if len(run) != 1:
+        raise AnchorMissing("BuiltInFunction::run")
+    bodies = [run[0]] + F.closures_of(run[0])
+    pows = sorted({mir.strip_generics(c.callee()) for b in bodies for c in b.calls() if mir.strip_generics(c.callee()).endswith(("::checked_pow", "::pow", "::overflowing_pow",
+                                                                                                                                    "::wrapping_pow", "::saturating_pow"))
+                   and "core::num::" in c.callee()})
+    narrow = [p_ for p_ in pows if not ("i128" in p_ or "f64" in p_)]
+    rep.ob(rule, "integer powers in the built-ins are computed in i128, the width of the declared result", "violated" if narrow else ("ok" if pows else "undecided"),
+           ("%s: results between that width and i128 are refused although the signature promises a bigint" % narrow) if narrow else "%s" % pows,
+           run[0].span, fn=run[0].path, key=rule + "|pow")
 
 
 def positions_not_text(F, rep, rule="C14.by-position"):
